@@ -10,7 +10,7 @@ use ckb_db::{
     DBPinnableSlice, RocksDB,
     iter::{DBIter, DBIterator, IteratorMode},
 };
-use ckb_db_schema::{CHAIN_SPEC_HASH_KEY, Col, MIGRATION_VERSION_KEY};
+use ckb_db_schema::{CHAIN_SPEC_HASH_KEY, COLUMN_BLOCK_HEADER, Col, MIGRATION_VERSION_KEY};
 use ckb_error::{Error, InternalErrorKind};
 use ckb_freezer::Freezer;
 use ckb_types::{
@@ -208,5 +208,14 @@ impl ChainDB {
     /// the active and unflushed immutable memtables and storage.
     pub fn estimate_num_keys_cf(&self, col: Col) -> Result<Option<u64>, Error> {
         self.db.estimate_num_keys_cf(col)
+    }
+
+    /// Whether the block is stored, asked from the header column itself.
+    ///
+    /// `ChainStore::block_exists` answers from the header cache first, which is good enough for
+    /// a reader; whoever decides on it whether a block has to be written must not be told about
+    /// a block which is only cached.
+    pub fn is_block_stored(&self, hash: &packed::Byte32) -> bool {
+        self.get(COLUMN_BLOCK_HEADER, hash.as_slice()).is_some()
     }
 }
